@@ -565,3 +565,62 @@ def r_component_methods_disjoint(ctx, repo):
     if n < 8:
         raise AnalysisError('R-COMPONENT-METHODS-DISJOINT: only %d assembled classes found (13 confirmed)' % n)
     return rule
+
+
+# ------------------------------------------------------------------------------------- R-UPDATE-POSTCONDITION
+def r_update_postcondition(ctx, repo):
+    """Reader.update(length) is the one place that makes look-ahead available: peek / prefix / forward index the buffer without a
+    bounds test after calling it.  So on every normal way out of update() either the buffer holds `length` characters (the
+    satisfied edge of a comparison of len(self.buffer) with the parameter), or the end-of-input sentinel '\\0' has been appended,
+    or input had ended before (raw_buffer is None).  A stream may return fewer items than asked from any read(), so a single
+    refill - however large - establishes none of these."""
+    from .cfg import CFG
+    from .srcmodel import norm
+    rule = ctx.rule('R-UPDATE-POSTCONDITION',
+                    'every normal exit of Reader.update(length) is preceded by len(self.buffer) >= length, by the appended NUL '
+                    'sentinel, or by the test that input had already ended')
+    f = _method(repo, 'reader.Reader', 'update')
+    if len(f.params) < 2:
+        raise AnalysisError('Reader.update: no length parameter')
+    me, length = f.params[0], f.params[1]
+    cfg = CFG(f.node)
+    good_nodes, good_edges = [], []
+    for nd in cfg.nodes:
+        a = getattr(nd, 'ast', None)
+        if nd.kind == 'stmt' and isinstance(a, (ast.AugAssign, ast.Assign)):
+            tgt = a.target if isinstance(a, ast.AugAssign) else a.targets[0]
+            if isinstance(tgt, ast.Attribute) and tgt.attr == 'buffer' and isinstance(tgt.value, ast.Name) and tgt.value.id == me \
+                    and any(isinstance(x, ast.Constant) and x.value == '\0' for x in ast.walk(a.value)):
+                good_nodes.append(nd)
+        elif nd.kind == 'test' and isinstance(a, ast.Compare) and len(a.ops) == 1:
+            l, r, op = a.left, a.comparators[0], a.ops[0]
+            def is_len(e):
+                return isinstance(e, ast.Call) and isinstance(e.func, ast.Name) and e.func.id == 'len' and len(e.args) == 1 \
+                    and isinstance(e.args[0], ast.Attribute) and e.args[0].attr == 'buffer' and isinstance(e.args[0].value, ast.Name) \
+                    and e.args[0].value.id == me
+            def is_length(e):
+                return isinstance(e, ast.Name) and e.id == length
+            sat = None
+            if is_len(l) and is_length(r):
+                sat = {ast.Lt: False, ast.GtE: True}.get(type(op))
+            elif is_length(l) and is_len(r):
+                sat = {ast.Gt: False, ast.LtE: True}.get(type(op))
+            if sat is not None:
+                good_edges.append((nd, sat))
+            # input already ended: self.raw_buffer is None
+            if isinstance(l, ast.Attribute) and l.attr == 'raw_buffer' and isinstance(r, ast.Constant) and r.value is None:
+                s2 = {ast.Is: True, ast.IsNot: False, ast.Eq: True, ast.NotEq: False}.get(type(op))
+                if s2 is not None:
+                    good_edges.append((nd, s2))
+    if not good_edges:
+        raise AnalysisError('Reader.update: no comparison of len(self.buffer) with the requested length found')
+    r = cfg.reach([cfg.entry], blocked=good_nodes, blocked_edges=good_edges, follow_exc=False)
+    if any(x in r for x in cfg.normal_exits()):
+        rule.fail('%s|exit-without-lookahead' % f.qualname, f.module.rel, f.node.lineno, f.qualname, 'def update(self, %s)' % length,
+                  'update() can return without the buffer holding the requested %s characters and without the NUL sentinel: after a '
+                  'short read() peek / prefix / forward index past the end of the buffer (IndexError) or see a truncated window '
+                  '(spurious ScannerError on a valid document)' % length)
+    else:
+        rule.ok(f.loc(), 'every normal exit passes len(self.buffer) >= %s, the sentinel or the ended-input test (%d satisfied edges, '
+                         '%d sentinel stores)' % (length, len(good_edges), len(good_nodes)))
+    return rule
